@@ -345,15 +345,17 @@ func genC13Models(id string) ([]harnessFile, error) {
 			}
 			fmt.Fprintf(&sb, "func verif%sBuild_%s(d int, mask uint64, ln int) *%s {\n\tv := &%s{}\n\tbl := ln\n\tif bl > 2 {\n\t\tbl = 2\n\t}\n\t_, _, _, _ = d, mask, ln, bl\n%s\treturn v\n}\n\n", id, n, n, n, builders[n])
 			fmt.Fprintf(&sb, "func verif%sEq_%s(a, b *%s) {\n%s}\n\n", id, n, n, eqs[n])
-			fmt.Fprintf(&sb, `func Verif%s_Model_%s_%s() {
+			modelSrc := fmt.Sprintf(`func Verif%s_Model_%s_%s() {
 	v := verif%sBuild_%s(verifParam("modeldepth", 1), verif%sMask(%d), verifChoice("len", 4))
 	var wire enc.Wire
 	announced := 0
 	verifNoPanic("%s/model/encode-no-panic", func() {
 		e := %sEncoder{}
+		/*PREINIT*/
 		e.Init(v)
 		announced = int(e.length)
 		wire = e.Encode(v)
+		/*POSTENCODE*/
 	})
 	verifAssert(wire != nil, "%s/model/encodes")
 	b := wire.Join()
@@ -368,6 +370,7 @@ func genC13Models(id string) ([]harnessFile, error) {
 	verifNoPanic("%s/model/decode-no-panic", func() { v2, err = parse(b, false) })
 	verifAssert(err == nil && v2 != nil, "%s/model/decodes")
 	verif%sEq_%s(v, v2)
+	/*SIGEQ*/
 	// an unrecognised element inserted at a top-level boundary
 	bounds := verif%sBoundaries(b)
 	at := bounds[verifChoice("insertAt", len(bounds))]
@@ -392,6 +395,21 @@ func genC13Models(id string) ([]harnessFile, error) {
 }
 
 `, id, dirTag(gm.dir), n, id, n, id, len(m.fields), id, n, id, id, n, n, n, id, id, id, n, id, id, n, id, id, id, n, id, id, id, id, n, id, id, id, n)
+			// a signature field is not part of the value: the encoder reserves SignatureValue_estLen bytes and the caller
+			// puts the signature into the wire segment afterwards; the harness does the same with symbolic bytes
+			pre, post, sigeq := "", "", ""
+			for _, f := range m.fields {
+				if f.kind == "signature" {
+					pre += fmt.Sprintf("sigLen_%s = 3 * verifChoice(\"siglen\", 2)\n\t\te.%s_estLen = uint(sigLen_%s)\n", f.name, f.name, f.name)
+					post += fmt.Sprintf("if wire != nil && e.%s_wireIdx >= 0 {\n\t\t\tsig_%s = verifBytesN(\"sigvalue\", sigLen_%s)\n\t\t\twire[e.%s_wireIdx] = sig_%s\n\t\t}\n", f.name, f.name, f.name, f.name, f.name)
+					sigeq += fmt.Sprintf("verifAssert((sigLen_%s > 0) == (v2.%s != nil), \"%s/model/decoded-field-equals/presence\")\n\tverifAssertBytesEq(v2.%s.Join(), sig_%s, \"%s/model/decoded-field-equals\")\n", f.name, f.name, id, f.name, f.name, id)
+					modelSrc = strings.Replace(modelSrc, "\tvar wire enc.Wire\n", fmt.Sprintf("\tvar wire enc.Wire\n\tsigLen_%s := 0\n\tvar sig_%s []byte\n", f.name, f.name), 1)
+				}
+			}
+			modelSrc = strings.Replace(modelSrc, "/*PREINIT*/", pre, 1)
+			modelSrc = strings.Replace(modelSrc, "/*POSTENCODE*/", post, 1)
+			modelSrc = strings.Replace(modelSrc, "/*SIGEQ*/", sigeq, 1)
+			sb.WriteString(modelSrc)
 			fmt.Fprintf(&sb, `func Verif%s_Long_%s_%s() {
 	verif%sLongLeft = 1
 	v := verif%sBuild_%s(verifParam("modeldepth", 1), verif%sMaskLong(%d), 0)
